@@ -25,12 +25,13 @@ from . import textworker as tw
 
 # reference rejections that correspond to the structural breakages the property names
 STRUCTURAL = ('unterminated literal', 'illegal escape', 'bad \\u escape', 'raw control character in literal',
-              "expected ']'", "expected '>>'", "expected 'ver:'", 'expected id', "expected '\"'", "expected '`'")
+              "expected ']'", "expected '>>'", "expected 'ver:'", 'expected id', "expected '\"'", "expected '`'",
+              '3.0-only construct in a 2.0 grid')
 
 GRID_DOCS = {
     'basic2': 'ver:"2.0"\nname,val\n"a b",12.5kW\n"x",N\n',
     'meta3': 'ver:"3.0" dis:"Site \\"A\\"" mk num:-4.2e-3 when:2020-02-29\nid dis:"Id" foo,ts,loc unit:"m"\n@a.b-c:1 "Disp",2021-03-04T05:06:07.5+01:00 Paris,C(37.5,-122.25)\nR,12:30:00 , `http://x/a?b=c`\n',
-    'coll3': 'ver:"3.0"\nv\n[1, "two" , T ,]\n{a:1 b mk:"x"}\n<<ver:"3.0"\nn\n5\n>>\nNA\nBin("text/plain")\n',
+    'coll3': 'ver:"3.0"\nv\n[1, "two" , T ,]\n{a:1 b mk:"x"}\n<<ver:"3.0"\nn\n[5]\n>>\nNA\nBin("text/plain")\n',
     'esc2': 'ver:"2.0"\na,b\n"q\\" \\\\ \\$ \\n \\u00e9 \\t",`u\\`x\\u00e9\\\\`\nBin(text/plain),M\n',
     'crlf3': 'ver:"3.0" tag\r\na, b\r\n1_000 , INF\r\n-INF,NaN\r\n,F\r\n',
     'two3': 'ver:"3.0"\na\n1\n\nver:"3.0"\nb\n"s"\n',
@@ -38,7 +39,7 @@ GRID_DOCS = {
 }
 SCALAR_DOCS = {
     'num': ('3.0', '-12_345.678e+5kW/h'), 'str': ('3.0', '"a\\"b\\u00e9\\n$x"'.replace('$', '\\$')), 'uri': ('2.0', '`http://a/b\\`c\\u0041`'),
-    'ref': ('3.0', '@abc-1.2 "Display"'), 'date': ('2.0', '2020-02-29'), 'time': ('3.0', '12:34:56.789'),
+    'ref': ('3.0', '@abc-1.2 "Display"'), 'date': ('2.0', '2020-02-29'), 'time': ('3.0', '12:34:56.789'), 'time6': ('2.0', '23:59:59.123456'),
     'dt': ('3.0', '2021-03-04T05:06:07.125+05:30 Kolkata'), 'dtz': ('2.0', '2021-03-04T05:06:07Z UTC'), 'coord': ('3.0', 'C(-37.5,144.25)'),
     'xstr': ('3.0', 'Span("2020-01")'), 'hex': ('3.0', 'hex("dead01")'), 'b64': ('3.0', 'b64("3q2+7w==")'),
     'list': ('3.0', '[1,[N,"x"],{a:1},]'), 'dict': ('3.0', '{a:1 b:"c" d}'), 'bin': ('2.0', 'Bin(text/plain)'),
@@ -79,11 +80,19 @@ def run_doc(hz, ref, name, text, job, ex_factory):
     stats = dict(explorations=0, paths=0, checks=0, solver_s=0.0, nontrivial=0, errors=[], reached=0, budget=0)
     positions = range(0, len(text) + 1)
     step = job.get('stride', 1)
+    import re as _re
+    always = set()
+    for m in _re.finditer(r'ver:"([^"]*)"', text):          # version texts are covered at every position in every tier
+        always.update(range(m.start(1), m.end(1)))
+    nparts = job.get('nparts', 1)
     for op in job.get('ops', ['replace', 'insert']):
         for i in positions:
             if op == 'replace' and i >= len(text):
                 continue
-            if (i + (1 if op == 'insert' else 0)) % step != job.get('phase', 0) % step:
+            if op == 'replace' and i in always:
+                if i % nparts != job.get('part', 0):
+                    continue
+            elif (i + (1 if op == 'insert' else 0)) % step != job.get('phase', 0) % step:
                 continue
             ex = ex_factory()
             found = {}
